@@ -94,6 +94,10 @@ type Session struct {
 	msgMeta     *module.MsgMetadata
 	delivery    module.Delivery
 	deliveryErr error
+	// Maps the normalized recipient address passed to the delivery back to
+	// the RCPT TO arguments as sent by the client (LMTP statuses are keyed by
+	// the latter).
+	rcptArgs map[string][]string
 
 	log log.Logger
 }
@@ -154,6 +158,7 @@ func (s *Session) cleanSession() {
 	s.msgMeta = nil
 	s.delivery = nil
 	s.deliveryErr = nil
+	s.rcptArgs = nil
 	s.msgCtx = nil
 	s.msgTask.End()
 }
@@ -417,7 +422,14 @@ func (s *Session) rcpt(ctx context.Context, to string, opts *smtp.RcptOptions) e
 		}
 	}
 
-	return s.delivery.AddRcpt(ctx, cleanTo, *opts)
+	if err := s.delivery.AddRcpt(ctx, cleanTo, *opts); err != nil {
+		return err
+	}
+	if s.rcptArgs == nil {
+		s.rcptArgs = make(map[string][]string)
+	}
+	s.rcptArgs[cleanTo] = append(s.rcptArgs[cleanTo], to)
+	return nil
 }
 
 func (s *Session) Logout() error {
@@ -530,9 +542,22 @@ func (s *Session) Data(r io.Reader) error {
 type statusWrapper struct {
 	sc smtp.StatusCollector
 	s  *Session
+
+	// Serializes access to s.rcptArgs, SetStatus may be called from multiple
+	// goroutines.
+	lock *sync.Mutex
 }
 
 func (sw statusWrapper) SetStatus(rcpt string, err error) {
+	// The status collector of go-smtp knows recipients as they were sent by
+	// the client, not in the normalized form the pipeline uses.
+	sw.lock.Lock()
+	if args := sw.s.rcptArgs[rcpt]; len(args) != 0 {
+		sw.s.rcptArgs[rcpt] = args[1:]
+		rcpt = args[0]
+	}
+	sw.lock.Unlock()
+
 	sw.sc.SetStatus(rcpt, sw.s.endp.wrapErr(sw.s.msgMeta.ID, !sw.s.opts.UTF8, "DATA", err))
 }
 
@@ -578,7 +603,7 @@ func (s *Session) LMTPData(r io.Reader, sc smtp.StatusCollector) error {
 		return wrapErr(err)
 	}
 
-	s.delivery.(module.PartialDelivery).BodyNonAtomic(bodyCtx, statusWrapper{sc, s}, header, buf)
+	s.delivery.(module.PartialDelivery).BodyNonAtomic(bodyCtx, statusWrapper{sc: sc, s: s, lock: new(sync.Mutex)}, header, buf)
 
 	// We can't really tell whether it is failed completely or succeeded
 	// so always commit. Should be harmless, anyway.
